@@ -40,25 +40,34 @@ fn in_range(v: f64, lo: f64, hi: f64, d: f64) -> bool {
 }
 
 fn check_step(name: &str, cj: &Value, cs: &[C5], t: usize, vals: &[f64], st: &mut Stats) -> CaseResult {
+	let m = cs[..=t].iter().fold(0.0f64, |m, k| m.max(k.h));
+	let mv = cs[..=t].iter().fold(0.0f64, |m, k| m.max(k.v));
+	check_step_at(name, cj, cs, t, t, m, mv, vals, st)
+}
+
+/// `cs[..=t]` may be only the recent part of a longer history (it must hold at least the longest window):
+/// `t_abs` is the number of candles processed so far, `m` / `mv` the largest high / volume of the whole history
+pub fn check_step_at(name: &str, cj: &Value, cs: &[C5], t: usize, t_abs: usize, m: f64, mv: f64, vals: &[f64], st: &mut Stats) -> CaseResult {
 	let c = &cs[t];
 	let p = cfggen::max_period(cj).max(1) as usize;
-	let d1 = allow(p, t, 1.0, 4.0); // scale-free quantities: interval width 1 (or 2)
-	let m = cs[..=t].iter().fold(0.0f64, |m, k| m.max(k.h));
-	let dm = allow(p, t, m, 4.0);
+	let d1 = allow(p, t_abs, 1.0, 4.0); // scale-free quantities: interval width 1 (or 2)
+	let dm = allow(p, t_abs, m, 4.0);
+	let t_rel = t;
+	let t = t_abs;
 	let desc = |what: &str, v: f64| format!("{name} {cj} step {t}: {what} = {v:e}; candle {:?}", c);
 	// finiteness wherever the formula is defined
 	let mut exempt_nonfinite = false;
 	match name {
 		"ChaikinMoneyFlow" => {
 			let n = cj["size"].as_u64().unwrap_or(1) as usize;
-			let vol: f64 = window_of(cs, t, n).map(|k| k.v).sum();
+			let vol: f64 = window_of(cs, t_rel, n).map(|k| k.v).sum();
 			exempt_nonfinite = vol == 0.0;
 		}
 		"TrendStrengthIndex" => {
 			let n = cj["period"].as_u64().unwrap_or(1) as usize;
 			let s = cj["source"].as_str().unwrap_or("close");
-			let first = src_of(&cs[t], s);
-			exempt_nonfinite = window_of(cs, t, n).all(|k| src_of(k, s) == first);
+			let first = src_of(&cs[t_rel], s);
+			exempt_nonfinite = window_of(cs, t_rel, n).all(|k| src_of(k, s) == first);
 		}
 		_ => {}
 	}
@@ -85,9 +94,11 @@ fn check_step(name: &str, cj: &Value, cs: &[C5], t: usize, vals: &[f64], st: &mu
 				// a ratio of two running sums of volumes: the residue of each sum is proportional to the largest
 				// volume of the history, the ratio's error to that residue over the current total volume
 				let n = cj["size"].as_u64().unwrap_or(1) as usize;
-				let mv = cs[..=t].iter().fold(0.0f64, |m, k| m.max(k.v));
-				let vol: f64 = window_of(cs, t, n).map(|k| k.v).sum();
-				let dv = d1 + 2.0 * allow(n, t, mv, n as f64) / vol;
+				let vol: f64 = window_of(cs, t_rel, n).map(|k| k.v).sum();
+				// every term clv_i carries the cancellation error of its own candle, amplified by price / range
+				// (the bound the clv check below and C18 use); a volume-weighted mean cannot err by more than the largest
+				let dclv = window_of(cs, t_rel, n).map(|k| if k.h > k.l { 8.0 * eps() * (k.h + k.l + 2.0 * k.c) / (k.h - k.l) } else { 0.0 }).fold(0.0f64, f64::max);
+				let dv = d1 + dclv + 2.0 * allow(n, t, mv, n as f64) / vol;
 				ensure!(in_range(vals[0], -1.0, 1.0, dv), "C12:ChaikinMoneyFlow:range", "{} (allowance {dv:e}, window volume {vol:e}, largest volume so far {mv:e})", desc("CMF", vals[0]));
 			}
 		}
@@ -243,7 +254,7 @@ pub fn def(tier: Tier) -> PropertyDef {
 	PropertyDef {
 		id: "C12",
 		level: "exploration",
-		rule: "All 37 indicators with generated valid configurations (non-overshooting MA kinds where the range claim is conditional) on regime streams built for the configuration's longest window: volatile -> EXACTLY flat candles for 3n+2 steps -> volatile -> flat 2n+1 -> volatile, with zero-volume stretches and high == low candles (3 of 4 cases), plus the general candle streams. Oracle: pure predicates on the outputs at every step - documented intervals (Aroon, RSI, MFI, Stochastic in [0,1]; CMO, CMF, TSI-based in [-1,1]), band orderings, channel containment, SAR on the side opposite to its trend (exact), dispersion measures >= 0, clv in [-1,1], and finiteness of every value of every indicator wherever the formula is defined (exempt: CMF windows with exactly zero total volume, TrendStrengthIndex windows that are exactly constant). Allowance K*eps*(n+t)*width, no conditioning exemption. Non-trivial = a case containing an exactly flat stretch at least as long as the longest window, followed by movement.",
+		rule: "(Also long one-sided trend streams with a zig-zag, <= 2500 bars / thorough 12000, sub-checks trend_*.) All 37 indicators with generated valid configurations (non-overshooting MA kinds where the range claim is conditional) on regime streams built for the configuration's longest window: volatile -> EXACTLY flat candles for 3n+2 steps -> volatile -> flat 2n+1 -> volatile, with zero-volume stretches and high == low candles (3 of 4 cases), plus the general candle streams. Oracle: pure predicates on the outputs at every step - documented intervals (Aroon, RSI, MFI, Stochastic in [0,1]; CMO, CMF, TSI-based in [-1,1]), band orderings, channel containment, SAR on the side opposite to its trend (exact), dispersion measures >= 0, clv in [-1,1], and finiteness of every value of every indicator wherever the formula is defined (exempt: CMF windows with exactly zero total volume, TrendStrengthIndex windows that are exactly constant). Allowance K*eps*(n+t)*width, no conditioning exemption. Non-trivial = a case containing an exactly flat stretch at least as long as the longest window, followed by movement.",
 		assumptions: vec!["Keltner/Envelopes band order is claimed for non-overshooting averages of positive prices".into()],
 		exhaustive: false,
 		checks,
